@@ -47,6 +47,16 @@ func trees(thorough bool) []TreeSpec {
 			{Name: "b4", Parent: "b2", Height: 4, QN: 1, PV: 5},
 		}},
 	}
+	// equal cumulative QN with a fork two blocks deep: the tie-break must use the prove value of the
+	// block right after the fork point, not of the head (all orders of the two local prove values)
+	for i, pv := range [][2]int64{{900, 100}, {100, 900}, {500, 500}} {
+		ts = append(ts, TreeSpec{Name: fmt.Sprintf("equalqn-deep-%d", i), Blocks: []BlockSpec{
+			{Name: "l1", Parent: "G", QN: 1, PV: pv[0], Txs: []string{"t1"}},
+			{Name: "l2", Parent: "l1", QN: 1, PV: pv[1]},
+			{Name: "r1", Parent: "G", QN: 2, PV: 500, Sec: 1, Txs: []string{"t2"}},
+			{Name: "r2", Parent: "r1", QN: 1, PV: 300},
+		}})
+	}
 	if thorough {
 		ts = append(ts, TreeSpec{Name: "six-blocks", Blocks: []BlockSpec{
 			{Name: "a1", Parent: "G", QN: 1, PV: 5, Txs: []string{"t1"}},
